@@ -126,3 +126,14 @@ package directive
 //@   ensures !old(has(m.data, k)) ==> len(m.order) == old(len(m.order)) + 1 && m.order[0] == k && (forall i :: 0 <= i && i < old(len(m.order)) ==> m.order[i+1] == old(m.order[i]))
 //@   ensures has(m.data, k) && m.data[k] == v
 //@   ensures forall j string :: j != k ==> has(m.data, j) == old(has(m.data, j)) && (has(m.data, j) ==> m.data[j] == old(m.data[j]))
+
+// ---------------------------------------------------------------- parameters (C17, C01)
+//@ func unescapeParameter
+//@   tag C17 C01
+//@   modifies nothing
+//@   ensures len(ret) <= len(b)
+//@   ensures [C17] !(len(b) >= 2 && b[0] == 34 && b[len(b)-1] == 34) ==> ret == b
+//@   ensures [C17] len(b) >= 2 && b[0] == 34 && b[len(b)-1] == 34 ==> len(ret) <= len(b) - 2
+//@   loop 1 invariant 1 <= i && i <= last && last == len(b) - 1 && len(c) <= i - 1 && len(b) >= 2
+//@   loop 1 decreases last - i
+//@   loop 1 frame nothing
